@@ -19,6 +19,7 @@ import (
 	"strings"
 	"sync"
 	"time"
+	"verif/simclock"
 )
 
 // VerifDir is where known_findings.json is read and evidence/replays are written: /verif, unless
@@ -218,8 +219,12 @@ func WorkerMain(args []string) int {
 		if i%n != shard {
 			continue
 		}
+		t0 := simclock.TotalSeconds()
 		r := p.RunUnit(u, tier, seed)
 		r.Unit = u
+		if r.SimSeconds == 0 {
+			r.SimSeconds = simclock.TotalSeconds() - t0 // simulated wall-clock time the unit's runs read
+		}
 		enc.Encode(workerMsg{Result: &r})
 		w.Flush()
 	}
